@@ -232,4 +232,47 @@ PROPS = {
         "assumptions": ["glibc stdio over fopencookie is the trusted C library view", "a legal short write that stdio retries cannot be produced through fopencookie and is not claimed",
                         "after an injected fault the content of that file and the position of that stream are no longer compared"],
     },
+    "C13": {
+        "level": "exploration",
+        "rule": "one evaluation = one seeded plan for 2-16 real Cello threads (own stack, own collector, own exception record) serialised by the "
+                "baton scheduler behind pthread_create/join/mutex_*/getspecific plus guarded yield hooks inside Type.c/GC.c/Exception.c: each "
+                "thread runs 1-4 workloads (container work, allocation-heavy work causing collections in its own collector, nested try/catch, "
+                "thread-local set/get/rem under shared key names, lock / trylock / with sections around a non-atomic counter and an in-section "
+                "flag); the schedule is either a handful of seeded pre-emption points (PCT style) or chaos (switch with probability 1/d at every "
+                "yield point); join order is seeded. Oracles: every workload digest equals the digest of the same workload run alone; no object "
+                "finalised by another thread's collector; handlers see exactly the exception their own thread threw; TLS values private; "
+                "immediately after join the thread has finished and its result is readable; critical sections never overlap, no lost update; "
+                "no deadlock; each thread's teardown finalises all of its objects. The exceptions engine adds one try/catch tree per thread. "
+                "Non-trivial = >= 2 context switches at library-internal yield points and >= 2 threads doing allocation-heavy work; "
+                "distinct = distinct trace hashes (the trace records every context switch).",
+        "stages": lambda tier: [
+            {"scen": "threads", "env": {}, "runs": 3000 if tier == "quick" else 500_000, "configs": ["plain"], "timeout": 20, "chunk": 20},
+            {"scen": "threads", "env": {}, "runs": 500 if tier == "quick" else 60_000, "configs": ["asan"], "first": 10_000_000, "timeout": 30, "chunk": 10},
+            {"scen": "exc", "env": {"threads": 3}, "runs": 1500 if tier == "quick" else 300_000, "configs": ["plain"], "first": 20_000_000, "timeout": 6},
+        ],
+        "rare_probes": ["thr.join_before_finish", "thr.join_after_finish", "thr.trylock_spins", "thr.alloc_threads", "sched.lib_switches", "sched.switches", "exc.thread_programs"],
+        "assumptions": ["interleaving granularity is the yield point under sequential consistency; weak-memory effects are not simulated",
+                        "stop(thread) (signal based) and objects handed between threads are outside the workload"],
+    },
+    "C08": {
+        "level": "exploration",
+        "rule": "one evaluation = one seeded plan: 1-3 run-time types created with new(Type, ...) holding 0-256 instances (seeded mix of the 30 "
+                "built-in classes and up to 256 run-time classes, shuffled, some members left empty, members are tripwire functions), then "
+                "seeded orders of single lookups, full sweeps over every class (cold, then warm, then re-cooled by writing NULL through the "
+                "public record layout), casts, and concurrent sweeps by 2-16 Cello threads against a freshly cooled type under the baton "
+                "scheduler in chaos mode with yield hooks inside the cache fill, the class memo store and the lazy header store. Each (type, "
+                "class, member) triple goes through instance, type_instance, implements, type_implements, method_at_offset, "
+                "type_method_at_offset, implements_method_at_offset, type_implements_method_at_offset and is compared with an independent scan "
+                "of the raw record by class name; absent classes / empty members must raise ClassError, cast to another type ValueError, no "
+                "member may be invoked. 39 built-in types take part in every plan. Non-trivial = >= 1 context switch inside a cache fill / memo / "
+                "lazy-header window and a type with > 18 instances; distinct = distinct trace hashes.",
+        "stages": lambda tier: [
+            {"scen": "dispatch", "env": {}, "runs": 2500 if tier == "quick" else 400_000, "configs": ["plain"], "timeout": 20, "chunk": 20},
+            {"scen": "dispatch", "env": {}, "runs": 400 if tier == "quick" else 40_000, "configs": ["asan"], "first": 10_000_000, "timeout": 40, "chunk": 10},
+        ],
+        "rare_probes": ["sched.sw_in_cache_fill", "sched.sw_in_class_memo", "sched.sw_in_lazy_header", "disp.concurrent_sweeps", "disp.empty_member",
+                        "disp.missing_class", "disp.cooled", "disp.casts", "disp.max_instances", "disp.max_threads"],
+        "assumptions": ["the benign same-value races on cache slots are not reported as data races (a serialising scheduler hides them from TSan anyway)",
+                        "Terminal is excluded: it ends every argument tuple, so it cannot be passed as the type of an error message"],
+    },
 }
